@@ -249,7 +249,9 @@ class Histories:
                 s2, _ = self.fresh({tt: (allsh.get(tt, 0) if (s_op[0] == "svel" or tt != t) else bsh) for tt in range(self.nframes)})
                 for op in ([b_op] if b_op else []) + [s_op]:
                     if op[0] == "bsys":
-                        fsutil.call(s2.get_system_velocity_per_frame)
+                        # get_system_velocity_per_frame rebuilt the matrix with the default fit and no angle limit: the fresh
+                        # object gets exactly such a matrix through the ordinary call (and nothing else that the helper may leave behind)
+                        fsutil.call(s2.build_force_matrix, when=op[1], angle_limit=np.inf)
                     else:
                         self.apply(s2, op)
                 rep2 = self.report(s2, t)
@@ -285,7 +287,7 @@ class Histories:
                         continue      # pressures after in-place edits mix data versions (curvature snapshot vs live tensions): no verdict
                     for op in ([b_op] if b_op else []) + [s_op]:
                         if op[0] == "bsys":
-                            fsutil.call(s2.get_system_velocity_per_frame)
+                            fsutil.call(s2.build_force_matrix, when=op[1], angle_limit=np.inf)
                         else:
                             self.apply(s2, op)
                 else:
